@@ -487,7 +487,7 @@ def unit_states(P=None):
         return _UNIT_STATES[key]
     u = P.unit("scpi")
     fi, ri, si = unit_layout(u)
-    eng = fdai.Engine(P, u, inline=lambda n, r: False, models={})
+    eng = fdai.Engine(P, u, inline=_helpers_of_response_module(P), models={})
     opener = u.trait_method(FORMATTER, "response_unit", "arrayvec::ArrayVec")
     fresh = None
     for r in eng.run(opener, [RefV(Cell(TOP, "buf"), (), True)]):
@@ -530,7 +530,7 @@ def unit_behaves_like(P, state, hh, hd):
     """does a unit in `state` (state field index -> value) write what a unit with (has_header, has_data) = (hh, hd) writes
     on its next data(..) and (when no datum was written yet) its next header(..)?"""
     u = P.unit("scpi")
-    eng = fdai.Engine(P, u, inline=lambda n, r: False, models={})
+    eng = fdai.Engine(P, u, inline=_helpers_of_response_module(P), models={})
     for meth in (("data", "header") if not hd else ("data",)):
         b = u.body(RU + "::" + meth)
         ucell = Cell(mk_unit(u, state), "unit")
@@ -540,3 +540,13 @@ def unit_behaves_like(P, state, hh, hd):
         if not seqs or max(seqs, key=len) != exp or not all(s == exp[: len(s)] for s in seqs):
             return False
     return True
+
+
+def _helpers_of_response_module(P):
+    """private (non-trait) functions of scpi::parser::response - helpers ResponseUnit / the formatters are split into - are
+    analysed in place; Formatter / ResponseData trait methods stay events"""
+    base = D.inline_inherent(("scpi::parser::response::",))
+
+    def pred(n, r):
+        return base(n, r)
+    return pred
